@@ -8,7 +8,7 @@ import FluteModel.Lemmas.ObjRecvAttach
   the small `Mini` object.  Executable; used by the `recv` driver next to `Mini` (both instantiations
   must print the same line, and that line must equal the real receiver's).
 
-  * `ObjRecv` covers TOI ≠ 0 only; the object inside an `FdtReceiver` (TOI 0) stays `Mini`.
+  * the object inside an `FdtReceiver` (TOI 0) is an `ObjRecv` object too, through `push0` (see `fdtEntry0`).
   * Writer side: builder answers `StoreObject`, `open`/`write` succeed, MD5 check off (what the
     recording writer of the `recv` engine does).  Codecs other than No-Code and content encodings are
     parameters of `ObjRecv`; here they are instantiated with "nothing decodable" (the `recv` engine's
@@ -22,7 +22,17 @@ def schemeOf (fec : Nat) : FecDec.Scheme :=
   if fec = 1 then .raptor else if fec = 2 then .rs2m else if fec = 5 then .rs28
   else if fec = 6 then .raptorQ else if fec = 129 then .rs28us else .noCode
 
-def otiOf (o : Recv.Oti) : FecDec.Oti := { scheme := schemeOf o.fec, e := o.esl, b := o.msbl, parity := 0, ss := none }
+def ssOf : Option (Nat × Nat × Nat × Nat) → Option FecDec.SS
+  | none => none
+  | some (0, m, g, _) => some (.rs m g)
+  | some (1, z, n, al) => some (.rq z n al)
+  | some (_, z, n, al) => some (.r z n al)
+
+def cencOf (c : Nat) : ObjRecv.Cenc :=
+  if c = 0 then .null else if c = 1 then .zlib else if c = 2 then .deflate else .gzip
+
+def otiOf (o : Recv.Oti) : FecDec.Oti :=
+  { scheme := schemeOf o.fec, e := o.esl, b := o.msbl, parity := o.parity, ss := ssOf o.ss }
 
 def codec : FecDec.Codec where
   rsNewOk _ _ := false
@@ -44,7 +54,7 @@ def toPkt (p : Recv.Pkt) : ObjRecv.Pkt :=
   let pidLen := if cp = .rs28us then 8 else 4
   { toi := p.toi, cp := cp, close := p.closeObject,
     fti := p.fti.map (fun f => (otiOf f.oti, f.len)),
-    cenc := none,
+    cenc := p.cenc.map cencOf,
     pid := (p.raw.drop (p.dlen - p.plen - pidLen)).take pidLen,
     payload := p.raw.drop (p.dlen - p.plen),
     dataLen := p.dlen }
@@ -78,15 +88,46 @@ def newCalls (cc : Option CacheControl) (before after : ObjRecv.St) : List WEv :
 def new (toi maxCache : Nat) : Obj :=
   { st := ObjRecv.St.new toi maxCache, reach := ObjRecv.reach_new params toi maxCache }
 
-def push (o : Obj) (p : Recv.Pkt) : Obj × List WEv :=
+/-- `ObjectReceiver::push` for a packet of TOI ≠ 0 -/
+def pushN (o : Obj) (p : Recv.Pkt) : Obj × List WEv :=
   if o.fault then (o, []) else
   match h : ObjRecv.push params o.st (toPkt p) with
   | .error _ => ({ o with fault := true }, [])
   | .ok st' =>
     ({ o with st := st', reach := ObjRecv.reach_push params o.st (toPkt p) o.reach h }, newCalls o.cc o.st st')
 
+/-- The File entry that stands for EXT_FTI / EXT_CENC of an FDT packet.  `ObjRecv.push` leaves out the
+    two TOI-0-only branches of `ObjectReceiver::push` - `set_fdt_id_from_pkt` (the FDT object takes its
+    instance id from EXT_FDT, which lets `init_object_writer` open the writer without any `attach_fdt`)
+    and `set_cenc_from_pkt` forcing `Null` when there is no EXT_CENC.  Agent orecv's adapter: on the
+    packet that brings the FTI, `attachFdt` with this entry sets fdt id / cenc / OTI / transfer length
+    exactly as those branches + `set_oti_from_pkt` do, initialises blocks and writer and replays the
+    cache; the `push` that follows repeats the (idempotent) prefix and pushes the packet to its block.
+    Content-Length and MD5 are `None` for TOI 0 in the code.  (Difference left: the code fixes `cenc` on
+    the FIRST packet even when that one has no EXT_FTI.) -/
+def fdtEntry0 (q : ObjRecv.Pkt) : Option ObjRecv.FileEntry :=
+  q.fti.map (fun x => { oti := some x.1, tl := x.2, cl := none, cenc := q.cenc.getD .null, md5 := none,
+                        noCache := false })
+
+/-- `ObjectReceiver::push` for a packet of TOI 0 (the object inside an `FdtReceiver`) -/
+def push0 (o : Obj) (p : Recv.Pkt) : Obj × List WEv :=
+  if o.fault then (o, []) else
+  match h : ObjRecv.attachFdt params o.st (p.fdtId.getD 0) (fdtEntry0 (toPkt p)) with
+  | .error _ => ({ o with fault := true }, [])
+  | .ok (st1, _) =>
+    match h2 : ObjRecv.push params st1 (toPkt p) with
+    | .error _ => ({ o with fault := true }, [])
+    | .ok st' =>
+      ({ o with st := st',
+                reach := ObjRecv.reach_push params st1 (toPkt p)
+                  (ObjRecv.reach_attach params o.st _ _ o.reach h) h2 },
+       newCalls o.cc o.st st')
+
+def push (o : Obj) (p : Recv.Pkt) : Obj × List WEv :=
+  if p.toi = 0 then push0 o p else pushN o p
+
 def entryOf (x : FileAbs) (cc : CacheControl) : ObjRecv.FileEntry :=
-  { oti := x.oti.map otiOf, tl := x.tlen, cl := none, cenc := .null, md5 := none,
+  { oti := x.oti.map otiOf, tl := x.tlen, cl := x.contentLength, cenc := cencOf x.cenc, md5 := none,
     noCache := decide (cc = .noCache) }
 
 def attachFdt (o : Obj) (id : Nat) (fdt : FdtAbs) : Obj × Bool × List WEv :=
@@ -101,11 +142,12 @@ def attachFdt (o : Obj) (id : Nat) (fdt : FdtAbs) : Obj × Bool × List WEv :=
 
 def drop (o : Obj) : List WEv := newCalls o.cc o.st (ObjRecv.drop o.st)
 
-/-- TOI 0 (the object inside an `FdtReceiver`) is not covered by `ObjRecv`: `Mini` is used there -/
+/-- every object, the one inside an `FdtReceiver` (TOI 0) included, is an `ObjRecv` object (`push0`);
+    the `Mini` summand is kept so that both instantiations share the type (never constructed by `iface`) -/
 abbrev Any := Mini.Obj ⊕ Obj
 
 def iface : ObjIface Any where
-  new toi mc := if toi = 0 then .inl (Mini.new toi mc) else .inr (new toi mc)
+  new toi mc := .inr (new toi mc)
   push o p := match o with
     | .inl m => let r := Mini.push m p; (.inl r.1, r.2)
     | .inr f => let r := push f p; (.inr r.1, r.2)
